@@ -808,7 +808,7 @@ fn generate(cfg: &GenCfg, rng: &mut Rng, w: &mut dyn Write) {
     let thorough = cfg.thorough;
     let mut e = Emit { w, in_case: 0, cases: 0, group: String::new() };
 
-    // ---- documented example and the suspected defects (fixed regression lines)
+    // ---- documented example and the defects repaired by fix commit c066e71 (regression lines)
     e.group("fixed");
     for l in [
         "circ 3 ; xor !i0 i1 i2 ; and g0 ; roots g1",
